@@ -1,8 +1,9 @@
 import Driver.Cbor
 import Driver.Asm
+import Driver.Link
 open Ipld.Driver
 
-def handlers : List (List String → Option String) := [cborHandler, asmHandler]
+def handlers : List (List String → Option String) := [cborHandler, asmHandler, linkHandler]
 
 def dispatch (line : String) : String :=
   let toks := (line.trimAscii.toString.splitOn " ").filter (· ≠ "")
